@@ -98,6 +98,21 @@ func TestMustPanics(t *testing.T) {
 	})
 }
 
+func TestIgnoreCaseUtf8(t *testing.T) {
+	// anything matched case-sensitively is still matched with ignore-case
+	for _, expr := range []string{"héllo=%{v}", "É%{v}é", "%{v}世界"} {
+		for _, line := range []string{"héllo=1", "HÉLLO=É1é", "x世界"} {
+			cs, _ := CompileEx(expr, false)
+			ic, _ := CompileEx(expr, true)
+			if cs.CreateInstance().FindSubmatchIndex([]byte(line)) != nil {
+				assert.NotNil(t, ic.CreateInstance().FindSubmatchIndex([]byte(line)), expr+" on "+line)
+			}
+		}
+	}
+	d, _ := CompileEx("HÉllo=%{v}", true)
+	assert.Equal(t, []int{1, 9, 8, 9}, d.CreateInstance().FindSubmatchIndex([]byte("-hÉLLO=1")))
+}
+
 func TestIgnoreCase(t *testing.T) {
 	d, err := CompileEx("TeSt1", true)
 
